@@ -138,6 +138,13 @@ func (r *run) checkC06(d *delivery, cl opClass, i int) {
 	if roundIdx[post.Status.Round] < roundIdx[pre.Status.Round] || roundIdx[post.Status.Round] > roundIdx[pre.Status.Round]+1 {
 		r.viol("C06", "street-order", fmt.Sprintf("round went %q -> %q on %s", pre.Status.Round, post.Status.Round, d.st), i)
 	}
+	// "the single thing it is waiting for": during a betting round that is an
+	// action from exactly one seat, the player to act
+	if post.Status.CurrentEvent == "RoundStarted" {
+		if os := offeredSeats(post); len(os) != 1 || os[0] != post.Status.CurrentPlayer {
+			r.viol("C06", "not-a-single-awaited-step", fmt.Sprintf("after %s seats %v are offered actions, player to act %d: %s", d.st, os, post.Status.CurrentPlayer, fmtState(post)), i)
+		}
+	}
 	if _, ok := roundIdx[post.Status.Round]; !ok {
 		r.viol("C06", "street-order", fmt.Sprintf("unknown round %q", post.Status.Round), i)
 	}
